@@ -24,6 +24,7 @@ type C03Scn struct {
 	Ops       [][]EvOp  `json:"ops"` // per client task
 	AdvanceMs int64     `json:"advance_ms,omitempty"` // one clock jump the scheduler may take (rolling sinks)
 	Ack       bool      `json:"ack,omitempty"`        // C20: check durability at every acknowledgement
+	Fast      bool      `json:"fast_caller,omitempty"` // property fastCaller=true (the cached call-site lookup)
 }
 
 func (s *C03Scn) knobs() SimKnobs { return s.Knobs }
@@ -100,6 +101,9 @@ func (c c03) Gen(rt *rapid.T, thorough bool) any {
 		}
 		if !s.Caller {
 			sys.Props["enableCaller"] = "false"
+		} else if rapid.IntRange(0, 3).Draw(rt, "fast_caller") == 0 {
+			s.Fast = true
+			sys.Props["fastCaller"] = "true"
 		}
 		kinds := []string{"Console", "File", "RollingFile"}
 		if lk := rapid.SampledFrom([]string{"", "", "", "Console", "File", "RollingFile", "RollingFile"}).Draw(rt, "logger_kind"); lk != "" {
@@ -185,6 +189,7 @@ func (c c03) Run(x *Exec, scn any) {
 	var sinks []sinkRec
 	var stop func()
 	var direct log.Logger
+	fastLoc := map[int][2]any{}
 	loggerRange := mRange{0, 999, false}
 	switch s.Mode {
 	case "builtin":
@@ -219,6 +224,39 @@ func (c c03) Run(x *Exec, scn any) {
 			sinks = []sinkRec{{name: "/logs/direct.log", kind: "file", layout: s.DLayout, width: 48, lo: 0, hi: 999}}
 		}
 	case "refresh":
+		if s.Fast {
+			// which location the cached lookup reports for each entry point is learnt from one
+			// sequential call per entry point (own configuration, recording appender); what is
+			// judged is that concurrent events carry exactly that location - their own.
+			calSpec := &SysSpec{Style: s.Sys.Style, Props: map[string]string{"fastCaller": "true"},
+				Apps: []AppSpec{{Name: "cal", Type: "Rec"}}, Logs: []LogSpec{{Name: "root", Type: "Logger", Refs: []RefSpec{{Ref: "cal"}}}}}
+			calCfg := calSpec.Render()
+			ok := x.do("calibrate", func() {
+				if err := log.Refresh(calCfg); err != nil {
+					panic("harness: calibration Refresh failed: " + err.Error())
+				}
+				for kind := 0; kind <= 4; kind++ {
+					emit(98, kind, tag, tagName, EvOp{Kind: kind, Size: 8}, log.InfoLevel)
+				}
+				log.Destroy()
+			})
+			if !ok {
+				panic(fmt.Sprintf("harness: calibration did not finish: %v", x.clientsStuck()))
+			}
+			for _, it := range getRec("cal").snapshot() {
+				var task, kind int
+				if it.Ev != nil {
+					if n, _ := fmt.Sscanf(it.Ev.ID, "t%ds%d", &task, &kind); n == 2 && task == 98 {
+						fastLoc[kind] = [2]any{it.Ev.File, it.Ev.Line}
+					}
+				}
+			}
+			if len(fastLoc) != 5 {
+				panic(fmt.Sprintf("harness: calibration saw %d of 5 entry points", len(fastLoc)))
+			}
+			resetHooks()
+			installHooks(true, true, true)
+		}
 		cfg := s.Sys.Render()
 		var err error
 		var pv any
@@ -315,7 +353,13 @@ func (c c03) Run(x *Exec, scn any) {
 
 	// ---- oracle (single-threaded, simulation over)
 	var all []*Submitted
-	for _, ts := range subs {
+	for t, ts := range subs {
+		for i, sb := range ts {
+			if s.Fast {
+				loc := fastLoc[s.Ops[t][i].Kind]
+				sb.File, sb.Line = loc[0].(string), loc[1].(int)
+			}
+		}
 		all = append(all, ts...)
 	}
 	for _, e := range all {
